@@ -1,7 +1,534 @@
-//! Lane `results` (stub).
-use crate::out::Out;
+//! Lane `results` (C03): responses of every result-bearing kind, generated as values, encoded by the
+//! harness's own encoder with random definite length forms, pushed through the REAL frame decoder
+//! (`verif_decode`) and the REAL result conversion (`LdapResultExt::try_from_tag` via
+//! `verif_result_ext`; the `From<Tag>` panic via the public `LdapResult::from`), and the REAL helper
+//! methods.  M lines: Model.Envelope.decodeInner / Model.Result.{resultExt, opCallResult, helpers}.
+//! R lines: every field handed to the caller equals the generated value (independent oracle), and
+//! the helpers accept exactly the documented codes.
+use crate::fmtx::*;
+use crate::gen::*;
+use crate::lanes::ber::{real_encode, spec_enc};
+use crate::lanes::hostile::{ctrls_text_real, decode_outcome};
+use crate::out::{guarded, Out};
 use crate::rng::Rng;
+use bytes::BytesMut;
+use ldap3::controls::Control;
+use ldap3::exop::Exop;
+use ldap3::result::{CompareResult, ExopResult, LdapError, LdapResult, SearchResult};
+use ldap3::ResultEntry;
+use lber::structure::StructureTag;
+use lber::structures::{Integer, Null, Tag};
 
-pub fn run(_thorough: bool, _rng: Rng, out: Out) {
-    out.finish("stub lane: nothing generated yet");
+fn opt_hex(v: &Option<Vec<u8>>) -> String {
+    match v {
+        Some(b) => hex(b),
+        None => String::from("none"),
+    }
+}
+
+type Ext = Option<(LdapResult, Exop, Option<Vec<u8>>)>;
+
+/// the real conversion, panics caught
+fn real_ext(tag: Tag) -> Result<Ext, String> {
+    guarded(move || ldap3::verif::verif_result_ext(tag))
+}
+
+fn ext_fields(res: &LdapResult, exop: &Exop, sasl: &Option<Vec<u8>>) -> String {
+    format!(
+        "ok rc={} matched={} text={} refs=[{}] exop={}/{} sasl={}",
+        res.rc,
+        hex(res.matched.as_bytes()),
+        hex(res.text.as_bytes()),
+        res.refs.iter().map(|u| hex(u.as_bytes())).collect::<Vec<_>>().join(","),
+        opt_hex(&exop.name.as_ref().map(|s| s.as_bytes().to_vec())),
+        opt_hex(&exop.val),
+        opt_hex(sasl)
+    )
+}
+
+fn ext_text(r: &Result<Ext, String>) -> String {
+    match r {
+        Err(_) => String::from("panic"),
+        Ok(None) => String::from("none"),
+        Ok(Some((res, exop, sasl))) => ext_fields(res, exop, sasl),
+    }
+}
+
+/// `LdapResult::from(tag)` (public `From<Tag>`): the path `op_call` and the search stream take
+fn from_text(t: &StructureTag) -> String {
+    let tag = Tag::StructureTag(t.clone());
+    match guarded(move || LdapResult::from(tag)) {
+        Err(_) => String::from("panic"),
+        Ok(res) => format!(
+            "ok rc={} matched={} text={} refs=[{}]",
+            res.rc,
+            hex(res.matched.as_bytes()),
+            hex(res.text.as_bytes()),
+            res.refs.iter().map(|u| hex(u.as_bytes())).collect::<Vec<_>>().join(",")
+        ),
+    }
+}
+
+struct E2E {
+    text: String,
+    id: Option<i32>,
+    consumed: usize,
+    op: Option<StructureTag>,
+    ext: Option<(LdapResult, Exop, Option<Vec<u8>>)>,
+}
+
+/// decode one frame with the real decoder, then re-enact the tail of `Ldap::op_call`:
+/// conversion + `result.ctrls = controls`
+fn real_e2e(bs: &[u8]) -> E2E {
+    let input = bs.to_vec();
+    let dec = guarded(move || {
+        let mut buf = BytesMut::from(&input[..]);
+        let before = buf.len();
+        let r = ldap3::verif::verif_decode(&mut buf);
+        (r.map_err(|_| ()), before - buf.len())
+    });
+    match dec {
+        Err(_) => E2E { text: String::from("panic"), id: None, consumed: 0, op: None, ext: None },
+        Ok((Err(_), _)) => E2E { text: String::from("error"), id: None, consumed: 0, op: None, ext: None },
+        Ok((Ok(None), n)) => E2E { text: String::from("needmore"), id: None, consumed: n, op: None, ext: None },
+        Ok((Ok(Some((id, (tag, ctrls)))), n)) => {
+            let op = match &tag {
+                Tag::StructureTag(t) => Some(t.clone()),
+                _ => None,
+            };
+            match real_ext(tag) {
+                Ok(Some((mut res, exop, sasl))) => {
+                    let pre_ctrls_empty = res.ctrls.is_empty();
+                    res.ctrls = ctrls; // op_call: `result.ctrls = controls`
+                    let text = format!(
+                        "frame {} consumed={} {} ctrls={}{}",
+                        id,
+                        n,
+                        ext_fields(&res, &exop, &sasl),
+                        ctrls_text_real(&res.ctrls),
+                        if pre_ctrls_empty { "" } else { " (conversion returned controls!)" }
+                    );
+                    E2E { text, id: Some(id), consumed: n, op, ext: Some((res, exop, sasl)) }
+                }
+                // `LdapResultExt::from` = `try_from_tag(..).expect("ldap result")`: a panic on the caller's task
+                Ok(None) => E2E { text: format!("frame {} consumed={} panic", id, n), id: Some(id), consumed: n, op, ext: None },
+                Err(_) => E2E { text: format!("frame {} consumed={} try-panic", id, n), id: Some(id), consumed: n, op, ext: None },
+            }
+        }
+    }
+}
+
+struct Case {
+    r: Resp,
+    rcc: Vec<u8>,
+    ctls: Option<Vec<WireCtl>>,
+}
+
+fn gen_case(rng: &mut Rng, app: u64) -> Case {
+    let r = gen_resp_wide(rng, app);
+    let rcc = gen_rc_octets(rng, r.rc);
+    let ctls = if rng.chance(1, 2) { Some((0..rng.below(5)).map(|_| gen_wire_ctl(rng)).collect()) } else { None };
+    Case { r, rcc, ctls }
+}
+
+fn short(h: &str) -> String {
+    if h.len() > 120 {
+        format!("{}…({} hex digits)", &h[..120], h.len())
+    } else {
+        h.to_string()
+    }
+}
+
+/// one well-formed response: encode (any length forms) -> real decode -> real conversion; M + R
+fn valid_case(out: &mut Out, rng: &mut Rng, c: &Case, emit_m: bool) {
+    let r = &c.r;
+    let op = resp_op_rcc(r, &c.rcc);
+    let msg = envelope_wire(r.id, op.clone(), &c.ctls);
+    let vary = !rng.chance(1, 8);
+    let e = if vary { spec_enc(&msg, rng, true) } else { real_encode(&msg) };
+    // whatever follows in the buffer must not matter
+    let mut buf = e.clone();
+    match rng.below(4) {
+        0 => buf.extend(rng.bytes_below(6)),
+        1 => {
+            let nxt = real_encode(&resp_msg(&gen_resp(rng)));
+            let k = rng.below(nxt.len() as u64 + 1) as usize;
+            buf.extend(&nxt[..k]);
+        }
+        _ => {}
+    }
+    let h = hex(&buf);
+    out.case(&h, true);
+    out.stat(&format!("kind.app{}", r.app));
+    out.stat(if vary { "enc.random-length-forms" } else { "enc.writer-minimal" });
+    out.stat(match r.rc {
+        0 => "rc.0",
+        5 | 6 => "rc.compare",
+        10 => "rc.referral",
+        1..=122 => "rc.1..122",
+        123..=0x7fffffff => "rc.123..2^31",
+        _ => "rc.2^31..2^32",
+    });
+    if c.rcc.len() > 1 && c.rcc[0] == 0 && c.rcc[1] < 0x80 {
+        out.stat("rc.padded-octets");
+    }
+    out.stat(&match &r.refs {
+        None => "refs.absent".to_string(),
+        Some(v) => format!("refs.{}", v.len()),
+    });
+    out.stat(&match &c.ctls {
+        None => "ctls.absent".to_string(),
+        Some(v) => format!("ctls.{}", v.len()),
+    });
+    for ct in c.ctls.iter().flatten() {
+        out.stat(match ct.crit {
+            None => "ctl.crit.absent",
+            Some(0) => "ctl.crit.FALSE",
+            Some(0xff) => "ctl.crit.TRUE-ff",
+            Some(_) => "ctl.crit.TRUE-odd-octet",
+        });
+        out.stat(match &ct.val {
+            None => "ctl.val.absent",
+            Some(v) if v.is_empty() => "ctl.val.empty",
+            Some(v) if v.len() >= 300 => "ctl.val.long",
+            Some(_) => "ctl.val.some",
+        });
+        out.stat(if known_name(&ct.oid) != "-" { "ctl.oid.known" } else { "ctl.oid.other" });
+    }
+    if r.matched.len() >= 300 || r.text.len() >= 300 {
+        out.stat("text.long");
+    }
+    if r.matched.is_empty() && r.text.is_empty() {
+        out.stat("text.both-empty");
+    }
+    if r.sasl.is_some() {
+        out.stat("sasl.present");
+    }
+    if r.exop_name.is_some() || r.exop_val.is_some() {
+        out.stat(match (&r.exop_name, &r.exop_val) {
+            (Some(_), Some(_)) => "exop.name+value",
+            (Some(_), None) => "exop.name-only",
+            _ => "exop.value-only",
+        });
+    }
+
+    let got = real_e2e(&buf);
+    if emit_m {
+        out.m(&format!("env.dec {}", h), &decode_outcome(&buf));
+        out.m(&format!("res.e2e {}", h), &got.text);
+        if let Some(t) = &got.op {
+            out.m(&format!("res.ext {}", tlv(t)), &ext_text(&real_ext(Tag::StructureTag(t.clone()))));
+        }
+    }
+    let sh = short(&h);
+    // oracle: the frame
+    let frame_ok = got.id == Some(r.id as i32) && got.consumed == e.len() && got.op.as_ref() == Some(&op);
+    out.r(
+        &format!("results.frame-as-sent app={} {}", r.app, sh),
+        frame_ok,
+        &format!("want id={} consumed={} op={}; got {}", r.id, e.len(), tlv(&op), short(&got.text)),
+    );
+    // oracle: every field equals what the server encoded
+    match &got.ext {
+        None => out.r(&format!("results.fields-as-sent app={} {}", r.app, sh), false, &format!("no result: {}", short(&got.text))),
+        Some((res, exop, sasl)) => {
+            let mut bad = vec![];
+            if res.rc != r.rc {
+                bad.push(format!("rc {} != {}", res.rc, r.rc));
+            }
+            if res.matched.as_bytes() != &r.matched[..] {
+                bad.push(format!("matched {} != {}", hex(res.matched.as_bytes()), hex(&r.matched)));
+            }
+            if res.text.as_bytes() != &r.text[..] {
+                bad.push(format!("text {} != {}", hex(res.text.as_bytes()), hex(&r.text)));
+            }
+            let want_refs: Vec<Vec<u8>> = r.refs.clone().unwrap_or_default();
+            let got_refs: Vec<Vec<u8>> = res.refs.iter().map(|u| u.as_bytes().to_vec()).collect();
+            if got_refs != want_refs {
+                bad.push(format!("refs {:?} != {:?}", got_refs, want_refs));
+            }
+            if exop.name.as_ref().map(|s| s.as_bytes().to_vec()) != r.exop_name {
+                bad.push(format!("exop name {:?} != {:?}", exop.name, r.exop_name));
+            }
+            if exop.val != r.exop_val {
+                bad.push(format!("exop value {:?} != {:?}", exop.val, r.exop_val));
+            }
+            if *sasl != r.sasl {
+                bad.push(format!("sasl {:?} != {:?}", sasl, r.sasl));
+            }
+            out.r(&format!("results.fields-as-sent app={} {}", r.app, sh), bad.is_empty(), &bad.join("; "));
+            let want = wire_ctls_text(&c.ctls);
+            let gotc = ctrls_text_real(&res.ctrls);
+            out.r(&format!("results.controls-as-sent app={} {}", r.app, sh), gotc == want, &format!("got {} want {}", short(&gotc), short(&want)));
+        }
+    }
+}
+
+/// a tree that need not be a result: real conversion vs model, `From` panics iff `try_from_tag` is None
+fn tree_case(out: &mut Out, label: &str, t: &StructureTag) {
+    let ts = tlv(t);
+    out.case(&ts, true);
+    let got = real_ext(Tag::StructureTag(t.clone()));
+    let txt = ext_text(&got);
+    out.stat(&format!("{}.{}", label, txt.split(' ').next().unwrap_or("?")));
+    out.m(&format!("res.ext {}", ts), &txt);
+    out.m(&format!("res.from {}", ts), &from_text(t));
+    // the fallible conversion itself never panics (the panic is `expect` in `From<Tag>`, on the caller's task)
+    out.r(&format!("results.try-from-tag-no-panic {} {}", label, short(&ts)), got.is_ok(), "try_from_tag panicked");
+}
+
+fn st(rc: u32) -> LdapResult {
+    LdapResult { rc, matched: String::from("cn=m"), text: String::from("diag"), refs: vec![String::from("ldap://r/")], ctrls: vec![] }
+}
+
+fn same(res: &LdapResult, rc: u32) -> bool {
+    res.rc == rc && res.matched == "cn=m" && res.text == "diag" && res.refs.len() == 1 && res.ctrls.is_empty()
+}
+
+fn verdict<T>(r: &Result<T, LdapError>) -> &'static str {
+    if r.is_ok() {
+        "ok"
+    } else {
+        "err"
+    }
+}
+
+/// Err must be `LdapError::LdapResult` carrying the same result
+fn err_same<T>(r: &Result<T, LdapError>, rc: u32) -> bool {
+    match r {
+        Ok(_) => true,
+        Err(LdapError::LdapResult { result }) => same(result, rc),
+        Err(_) => false,
+    }
+}
+
+fn helpers_case(out: &mut Out, rc: u32) {
+    out.case(&format!("helpers {}", rc), true);
+    let entry = || ResultEntry::new(prim(1, 4, vec![]));
+    let exop = || Exop { name: Some(String::from("1.2.3")), val: Some(vec![7]) };
+    let r = guarded(move || {
+        let s = st(rc).success();
+        let n = st(rc).non_error();
+        let eq = CompareResult(st(rc)).equal();
+        let cn = CompareResult(st(rc)).non_error();
+        let ss = SearchResult(vec![entry(), entry()], st(rc)).success();
+        let sn = SearchResult(vec![entry(), entry()], st(rc)).non_error();
+        let es = ExopResult(exop(), st(rc)).success();
+        let en = ExopResult(exop(), st(rc)).non_error();
+        let text = format!(
+            "success={} non_error={} equal={} cmp_non_error={} search={}/{} exop={}/{}",
+            verdict(&s),
+            verdict(&n),
+            match &eq {
+                Ok(true) => "true",
+                Ok(false) => "false",
+                Err(_) => "err",
+            },
+            verdict(&cn),
+            verdict(&ss),
+            verdict(&sn),
+            verdict(&es),
+            verdict(&en)
+        );
+        // payloads: Ok carries the value itself, Err the same result
+        let mut payload_ok = err_same(&s, rc) && err_same(&n, rc) && err_same(&eq, rc) && err_same(&cn, rc) && err_same(&ss, rc) && err_same(&sn, rc) && err_same(&es, rc) && err_same(&en, rc);
+        if let Ok(x) = &s {
+            payload_ok &= same(x, rc);
+        }
+        if let Ok(x) = &n {
+            payload_ok &= same(x, rc);
+        }
+        if let Ok(x) = &cn {
+            payload_ok &= same(x, rc);
+        }
+        for x in [&ss, &sn] {
+            if let Ok((es, res)) = x {
+                payload_ok &= es.len() == 2 && same(res, rc);
+            }
+        }
+        for x in [&es, &en] {
+            if let Ok((e, res)) = x {
+                payload_ok &= e.name.as_deref() == Some("1.2.3") && e.val == Some(vec![7]) && same(res, rc);
+            }
+        }
+        (text, payload_ok)
+    });
+    let (text, payload_ok) = match r {
+        Ok(x) => x,
+        Err(_) => (String::from("panic"), false),
+    };
+    out.m(&format!("res.helpers {}", rc), &text);
+    // documented sets (result.rs doc comments / RFC 4511 A.1): 0; 0 or 10; 5 -> false, 6 -> true; 5, 6 or 10
+    let ok_err = |b: bool| if b { "ok" } else { "err" };
+    let want = format!(
+        "success={} non_error={} equal={} cmp_non_error={} search={}/{} exop={}/{}",
+        ok_err(rc == 0),
+        ok_err(rc == 0 || rc == 10),
+        match rc {
+            5 => "false",
+            6 => "true",
+            _ => "err",
+        },
+        ok_err(rc == 5 || rc == 6 || rc == 10),
+        ok_err(rc == 0),
+        ok_err(rc == 0 || rc == 10),
+        ok_err(rc == 0),
+        ok_err(rc == 0 || rc == 10)
+    );
+    out.r(&format!("results.helpers-documented-codes rc={}", rc), text == want, &format!("got {} want {}", text, want));
+    out.r(&format!("results.helpers-payload-unchanged rc={}", rc), payload_ok, "Ok/Err payload differs from the input result");
+}
+
+pub fn run(thorough: bool, mut rng: Rng, mut out: Out) {
+    // --- corpus -------------------------------------------------------------------------------
+    // the driver's synthetic acknowledgement, and a typed tag that is not a result
+    out.case("null", true);
+    out.m("res.ext null", &ext_text(&real_ext(Tag::Null(Null::default()))));
+    out.case("other", true);
+    out.m("res.ext other", &ext_text(&real_ext(Tag::Integer(Integer::default()))));
+    let s3 = |rc: Vec<u8>| vec![prim(0, 10, rc), prim(0, 4, b"cn=x".to_vec()), prim(0, 4, b"msg".to_vec())];
+    let with = |extra: Vec<StructureTag>| {
+        let mut k = s3(vec![0]);
+        k.extend(extra);
+        k
+    };
+    let corpus: Vec<(&str, StructureTag)> = vec![
+        ("ok.minimal", cons(1, 7, s3(vec![0]))),
+        ("ok.rc-two-octets", cons(1, 7, s3(vec![0x00, 0x80]))),
+        ("rc.negative-ff", cons(1, 7, s3(vec![0xff]))),
+        ("rc.negative-ff80", cons(1, 7, s3(vec![0xff, 0x80]))),
+        ("rc.negative-4-octets", cons(1, 7, s3(vec![0xff, 0xff, 0xff, 0xfe]))),
+        ("rc.5-octets", cons(1, 7, s3(vec![1, 0, 0, 0, 5]))),
+        ("rc.9-octets", cons(1, 7, s3(vec![1, 2, 3, 4, 5, 6, 7, 8, 9]))),
+        ("rc.empty", cons(1, 7, s3(vec![]))),
+        ("bad.op-primitive", prim(1, 7, vec![])),
+        ("bad.empty", cons(1, 7, vec![])),
+        ("bad.one-element", cons(1, 7, vec![prim(0, 10, vec![0])])),
+        ("bad.two-elements", cons(1, 7, vec![prim(0, 10, vec![0]), prim(0, 4, vec![])])),
+        ("bad.rc-integer", cons(1, 7, vec![prim(0, 2, vec![0]), prim(0, 4, vec![]), prim(0, 4, vec![])])),
+        ("bad.rc-context", cons(1, 7, vec![prim(2, 10, vec![0]), prim(0, 4, vec![]), prim(0, 4, vec![])])),
+        ("bad.rc-constructed", cons(1, 7, vec![cons(0, 10, vec![]), prim(0, 4, vec![]), prim(0, 4, vec![])])),
+        ("bad.matched-constructed", cons(1, 7, vec![prim(0, 10, vec![0]), cons(0, 4, vec![]), prim(0, 4, vec![])])),
+        ("bad.text-constructed", cons(1, 7, vec![prim(0, 10, vec![0]), prim(0, 4, vec![]), cons(0, 4, vec![])])),
+        ("bad.matched-not-utf8", cons(1, 7, vec![prim(0, 10, vec![0]), prim(0, 4, vec![0xff, 0xfe]), prim(0, 4, vec![])])),
+        ("bad.text-not-utf8", cons(1, 7, vec![prim(0, 10, vec![0]), prim(0, 4, vec![]), prim(0, 4, vec![0xc3])])),
+        ("odd.strings-any-class", cons(0, 16, vec![prim(0, 10, vec![0]), prim(3, 30, b"a".to_vec()), prim(1, 0, b"b".to_vec())])),
+        ("bad.ref-primitive", cons(1, 7, with(vec![prim(2, 3, vec![])]))),
+        ("bad.ref-uri-constructed", cons(1, 7, with(vec![cons(2, 3, vec![cons(0, 4, vec![])])]))),
+        ("bad.ref-uri-not-utf8", cons(1, 7, with(vec![cons(2, 3, vec![prim(0, 4, b"ldap://a".to_vec()), prim(0, 4, vec![0xc0, 0x80])])]))),
+        ("ok.ref-empty-list", cons(1, 7, with(vec![cons(2, 3, vec![])]))),
+        ("odd.two-referrals", cons(1, 7, with(vec![cons(2, 3, vec![prim(0, 4, b"a".to_vec())]), cons(2, 3, vec![prim(0, 4, b"b".to_vec()), prim(0, 4, b"c".to_vec())])]))),
+        ("odd.ref-universal-class", cons(1, 7, with(vec![cons(0, 3, vec![prim(0, 4, b"a".to_vec())])]))),
+        ("bad.sasl-constructed", cons(1, 1, with(vec![cons(2, 7, vec![])]))),
+        ("odd.sasl-twice", cons(1, 1, with(vec![prim(2, 7, vec![1]), prim(2, 7, vec![2])]))),
+        ("odd.sasl-on-modify", cons(1, 7, with(vec![prim(2, 7, vec![1])]))),
+        ("bad.exop-name-constructed", cons(1, 24, with(vec![cons(2, 10, vec![])]))),
+        ("bad.exop-name-not-utf8", cons(1, 24, with(vec![prim(2, 10, vec![0x80])]))),
+        ("bad.exop-value-constructed", cons(1, 24, with(vec![cons(2, 11, vec![])]))),
+        ("odd.exop-value-twice", cons(1, 24, with(vec![prim(2, 11, vec![1]), prim(2, 10, b"1.2".to_vec()), prim(2, 11, vec![2])]))),
+        ("odd.exop-universal-enum-as-name", cons(1, 24, with(vec![prim(0, 10, b"x".to_vec())]))),
+        ("odd.unknown-components", cons(1, 7, with(vec![prim(2, 0, vec![1]), cons(2, 12, vec![]), prim(0, 4, vec![0xff])]))),
+        ("odd.all", cons(1, 24, with(vec![cons(2, 3, vec![prim(0, 4, b"u".to_vec())]), prim(2, 7, vec![7]), prim(2, 10, b"1.3".to_vec()), prim(2, 11, vec![])]))),
+    ];
+    for (label, t) in &corpus {
+        tree_case(&mut out, &format!("corpus.{}", label.split('.').next().unwrap_or("?")), t);
+        // and through the decoder inside a message with a control
+        let msg = envelope_wire(7, t.clone(), &Some(vec![WireCtl { oid: b"1.2.840.113556.1.4.319".to_vec(), crit: Some(1), val: None }]));
+        let e = spec_enc(&msg, &mut rng, true);
+        out.m(&format!("res.e2e {}", hex(&e)), &real_e2e(&e).text);
+    }
+
+    // --- helpers: all rc 0..=255 exhaustively, edges, random u32 -------------------------------
+    for rc in 0..=255u32 {
+        helpers_case(&mut out, rc);
+    }
+    for rc in [256u32, 261, 262, 266, 65536 + 5, 65536 + 10, 0x7fffffff, 0x80000000, 0x80000005, 0xffffffff, 0xfffffffa, 0x0100_0000, 0x0a00_0000] {
+        helpers_case(&mut out, rc);
+    }
+    for _ in 0..(if thorough { 20000 } else { 1000 }) {
+        let rc = match rng.below(3) {
+            0 => rng.next() as u32,
+            1 => (rng.next() as u32) & 0xffff,
+            // low octet one of the documented codes, high bits random
+            _ => ((rng.next() as u32) << 8) | *rng.pick(&[0u32, 5, 6, 10]),
+        };
+        helpers_case(&mut out, rc);
+    }
+    out.stat_n("helpers.codes", 256);
+
+    // --- well-formed responses -----------------------------------------------------------------
+    // every kind x every code 0..=122 once, then random
+    for &app in RESULT_APPS {
+        for rc in 0..=122u32 {
+            let mut c = gen_case(&mut rng, app);
+            c.r.rc = rc;
+            c.rcc = gen_rc_octets(&mut rng, rc);
+            valid_case(&mut out, &mut rng, &c, rc % 4 == 0);
+        }
+    }
+    let n = if thorough { 400_000 } else { 9000 };
+    for i in 0..n {
+        let app = RESULT_APPS[i % RESULT_APPS.len()];
+        let c = gen_case(&mut rng, app);
+        // thorough: the Rust oracle sees every case, the model every 4th
+        let emit = !thorough || i % 4 == 0;
+        valid_case(&mut out, &mut rng, &c, emit);
+    }
+
+    // --- malformed / unusual results: every single-node mutation of valid ops ----------------
+    let nbase = if thorough { 600 } else { 30 };
+    for i in 0..nbase {
+        let app = RESULT_APPS[i % RESULT_APPS.len()];
+        let mut c = gen_case(&mut rng, app);
+        // keep the mutation sets small: short strings
+        c.r.matched.truncate(4);
+        while std::str::from_utf8(&c.r.matched).is_err() {
+            c.r.matched.pop();
+        }
+        c.r.text.truncate(6);
+        while std::str::from_utf8(&c.r.text).is_err() {
+            c.r.text.pop();
+        }
+        if i % 3 == 0 && c.r.refs.is_none() {
+            c.r.refs = Some(vec![b"ldap://a/".to_vec(), b"ldap://b/".to_vec()]);
+        }
+        let op = resp_op_rcc(&c.r, &c.rcc);
+        for (name, m) in tree_mutations(&op) {
+            let label = format!("mut.{}", name.split('@').next().unwrap_or("?").trim_end_matches(char::is_numeric));
+            tree_case(&mut out, &label, &m);
+        }
+        // tag numbers the component loop dispatches on, in every class, primitive and constructed
+        for id in [3u64, 7, 10, 11] {
+            for cl in 0..4u8 {
+                let mut ks = match &op.payload {
+                    lber::structure::PL::C(ks) => ks.clone(),
+                    _ => vec![],
+                };
+                let extra = if rng.chance(1, 2) { prim(cl, id, utf8_string(&mut rng, 4)) } else { cons(cl, id, vec![prim(0, 4, utf8_string(&mut rng, 3))]) };
+                let at = rng.range(3, ks.len() as u64) as usize;
+                ks.insert(at, extra);
+                tree_case(&mut out, "mut.insert-dispatch-number", &cons(1, app, ks));
+            }
+        }
+        // non-UTF-8 bytes in each string position
+        for pos in 1..=2usize {
+            let mut ks = match &op.payload {
+                lber::structure::PL::C(ks) => ks.clone(),
+                _ => vec![],
+            };
+            let nb = rng.range(1, 4) as usize;
+            let mut v = rng.bytes(nb);
+            v[0] |= 0x80;
+            ks[pos] = prim(0, 4, v);
+            tree_case(&mut out, "mut.random-bytes-string", &cons(1, app, ks));
+        }
+    }
+    // random small trees (almost never results)
+    for _ in 0..(if thorough { 20000 } else { 500 }) {
+        let t = crate::lanes::ber::gen_tree(&mut rng, 3, 4, false);
+        tree_case(&mut out, "random-tree", &t);
+    }
+    // control lists ride along unchanged whatever the result looks like (presence of referrals etc.)
+    let _: Option<Control> = None;
+    out.finish("responses of all eight result-bearing kinds (bind, search done, modify, add, delete, modifyDN, compare, extended) generated as values: every code 0..=122 per kind, random codes below 2^31 and in 2^31..2^32, minimal and zero-padded resultCode octets, empty/short/multi-byte/300-byte matched DN and text, referral absent or 0..5 URIs, 0..4 controls (seven known OIDs and others; criticality absent/FALSE/ff/odd non-zero octet; value absent/empty/long), SASL creds / exop name / value combinations, random definite length forms at every level, random trailing bytes; helpers on all codes 0..=255 + edges + random u32; every single-node mutation of valid result trees, dispatch numbers in every class, non-UTF-8 strings, random trees; non-trivial = all; distinct by FNV of the canonical input");
 }
